@@ -90,6 +90,12 @@ CLAIMED.update({
                 note="Trusted: z3, vx/rvsem.py, the riscv_scf.for semantics stated in the evidence. Single-block functions only (the allocator rejects others); trip counts <= 4."),
 })
 
+CLAIMED.update({
+    "C21": dict(cat="translation_validation", design="DESIGN.md §4 C21",
+                text="Translation validation (M3) at instruction level: integer func/arith functions (add/mul chains, argument reuse, 1-6 arguments, families with 4-11 simultaneously live values, SYMBOLIC 64-bit constants) are compiled by the real x86 pipeline (func/arith lowering, cast reconciliation, canonicalize, dce, x86-allocate-registers, prologue/epilogue insertion); the resulting x86-dialect function executes on a 64-bit register-file + stack model with symbolic argument registers, callee-saved registers and rsp; z3 decides for all of them that rax equals the source's reference result, rbx/rbp/r12-r15 and rsp are restored and the caller's stack is untouched. Also exercises the x86 register allocator for C19.",
+                note="The 'assembles and runs natively' clause cannot be decided by a solver: the claim is about the instruction semantics of the ops the backend produced, with vx/x86sem.py (mov/add/sub/imul/and/or/xor/lea/push/pop) in the trusted base. Pipelines that report failure (out of registers, imm32 overflow) are accepted outcomes."),
+})
+
 NOT_APPLICABLE = {
     "C05": "custom assembly formats: the quantifier is over ~80 dialects' op definitions/format programs; no data dimension for a solver beyond what C04/C06 cover for leaves (DESIGN §5)",
     "C17": "pass x corpus-module cross product: deciding it means running each pair concretely; no symbolic dimension (DESIGN §5)",
